@@ -22,6 +22,7 @@ import fnmatch
 from vlib import q, fx
 from vlib.fx import P, K, O, L, R, U, A
 from vlib.fxmodel import make_fx, model_obj, effect_sites, check_find_path_anchor
+from vlib.pat import Pat, returned
 from vlib.front import unparse, dotted, const_value, AnchorMissing
 
 ALF = 'phylib/io/alf.py'
@@ -234,13 +235,24 @@ def t1_names(ctx):
     extra = [p for p in (pats or []) if any(fnmatch.fnmatchcase(n, p) for n in ('params.py', '_phy_spikes_subset.spikes.npy', 'cluster_KSLabel.tsv'))]
     ctx.check(not extra, 'C13.T1', rl, 'label patterns', 'files outside the four object families keep their names', 'label patterns %s also rename params.py / subset / tsv files' % extra)
     rn = [c for c in rl.calls() if q.method_name(c) == 'rename']
-    okr = False
-    if rn and rn[0].args:
+    if not rn or not rn[0].args or not isinstance(rn[0].func.value, ast.Name):
+        ctx.undecided('C13.T1', rl, 'the rename call of rename_with_label was not recognised')
+    else:
+        fv = rn[0].func.value.id
         a = rn[0].args[0]
-        t = unparse(a).replace(' ', '')
-        okr = t in ("f.with_suffix(f'.{self.label}{f.suffix}')", "f.with_suffix('.%s%s'%(self.label,f.suffix))", "f.with_suffix('.'+self.label+f.suffix)")
-    ctx.check(okr, 'C13.T1', rl, rn[0] if rn else 'rename_with_label', 'the label is inserted before the last suffix: name.ext -> name.<label>.ext',
-              'the label is not inserted as name.<label>.ext (`%s`)' % (unparse(rn[0].args[0]) if rn and rn[0].args else '?'))
+        goods = ["%s.with_suffix(f'.{self.label}{%s.suffix}')" % (fv, fv), "%s.with_suffix('.%%s%%s' %% (self.label, %s.suffix))" % (fv, fv), "%s.with_suffix('.' + self.label + %s.suffix)" % (fv, fv),
+                 "%s.with_name(f'{%s.stem}.{self.label}{%s.suffix}')" % (fv, fv, fv)]
+        bads = ["%s.with_suffix(f'{%s.suffix}.{self.label}')" % (fv, fv), "%s.with_suffix(f'.{self.label}')" % fv, "%s.with_name(f'{self.label}.{%s.name}')" % (fv, fv),
+                "%s.with_suffix(f'{self.label}{%s.suffix}')" % (fv, fv), "%s.with_name(f'{%s.name}.{self.label}')" % (fv, fv)]
+        g = Pat().any(goods, a)
+        b_ = not g and (Pat().any(bads, a) or (isinstance(a, ast.Call) and q.method_name(a) in ('with_suffix', 'with_name') and {n.id for n in ast.walk(a) if isinstance(n, ast.Name)} <= {fv, 'self'}
+                                              and isinstance(a.args[0] if a.args else None, ast.JoinedStr)))
+        if g:
+            ctx.holds('C13.T1', rl, 'the label is inserted before the last suffix: name.ext -> name.<label>.ext', rn[0])
+        elif b_:
+            ctx.violated('C13.T1', rl, rn[0], 'the label is not inserted as name.<label>.ext (`%s`)' % unparse(a))
+        else:
+            ctx.undecided('C13.T1', rl, 'new name `%s` not in a recognised form' % unparse(a), rn[0])
     if rn:
         loops_ = [a for a in rl.ancestors(rn[0]) if isinstance(a, ast.For)]
         skips = [x for l_ in loops_ for x in ast.walk(l_) if isinstance(x, (ast.Continue, ast.Break))]
@@ -267,18 +279,31 @@ def t1_names(ctx):
         if isinstance(lp.iter, (ast.List, ast.Tuple)):
             attrs = [const_value(e) for e in lp.iter.elts]
     okc = False
+    loopvar = None
+    for lp in cs.nodes(ast.For):
+        if isinstance(lp.iter, (ast.List, ast.Tuple)) and isinstance(lp.target, ast.Name):
+            loopvar = lp.target.id
     if js and attrs:
         from vlib.front import str_eval
         okc = True
         for a in attrs:
-            pat = str_eval(js[0], {'attribute': a})
+            pat = str_eval(js[0], {loopvar or 'attribute': a})
             for nm in ('spikes.%s.npy' % a, 'spikes.%s.%s.npy' % (a, label)):
                 okc = okc and pat is not None and fnmatch.fnmatchcase(nm, pat)
     ctx.check(okc and set(attrs or []) == {'templates', 'clusters'}, 'C13.T1', cs, js[0] if js else 'compress_spikes_dtypes',
               'the id compression finds spikes.templates / spikes.clusters with and without label', 'the id compression does not find the labelled or unlabelled spikes.templates / spikes.clusters file')
     sv = [c for c in cs.calls() if dotted(c.func) == 'np.save']
-    ctx.check(bool(sv) and unparse(sv[0].args[0]) == 'fn' and 'np.load(fn)' in unparse(sv[0].args[1]), 'C13.T1', cs, sv[0] if sv else 'compress_spikes_dtypes',
-              'the compressed ids overwrite the same file they were read from', 'the compressed ids are not written back to the file they were read from')
+    if not sv or len(sv[0].args) < 2:
+        ctx.undecided('C13.T1', cs, 'write-back of the compressed ids not recognised')
+    else:
+        dst = unparse(sv[0].args[0])
+        lds = [unparse(c.args[0]) for c in ast.walk(sv[0].args[1]) if isinstance(c, ast.Call) and dotted(c.func) == 'np.load' and c.args]
+        if lds and all(x == dst for x in lds):
+            ctx.holds('C13.T1', cs, 'the compressed ids overwrite the same file they were read from', sv[0])
+        elif lds:
+            ctx.violated('C13.T1', cs, sv[0], 'the compressed ids are read from `%s` but written to `%s`' % (lds[0], dst))
+        else:
+            ctx.undecided('C13.T1', cs, 'source of the compressed ids not recognised', sv[0])
 
 
 def u1_h1(ctx):
